@@ -201,6 +201,7 @@ def run_case(c):
             return {"error": "probe:" + err_name(e)}
         before = m.likelihood_evaluations
         ncalls0 = len(calls)
+        x_before = x.tobytes()
         try:
             if c["which"] == "likelihood":
                 out = m.batch_evaluate_log_likelihood(x, unit_hypercube=bool(c.get("unit")))
@@ -220,7 +221,8 @@ def run_case(c):
             if kind_used in ("vecinf", "scalarinf"):
                 ref = special_ref(ref)
             res = {"out": out, "ref": ref, "delta": int(m.likelihood_evaluations - before),
-                   "calls": calls[ncalls0:], "vectorised": bool(m.allow_vectorised and m.vectorised_likelihood)}
+                   "calls": calls[ncalls0:], "vectorised": bool(m.allow_vectorised and m.vectorised_likelihood),
+                   "input_unchanged": bool(c["which"] == "single" or x.tobytes() == x_before)}
             if c.get("reuse") and c["n"] >= 2 and c["which"] != "single":
                 # the same buffer, refilled in place with the points in reverse order, evaluated again
                 x[...] = x[::-1].copy()
